@@ -1,0 +1,41 @@
+//go:build verif
+
+package metrics
+
+import "time"
+
+// VerifWindow exposes a sliding window with a caller-chosen lifetime (verification builds only).
+type VerifWindow struct {
+	w *slidingWindow
+}
+
+// NewVerifWindow creates a sliding window and starts its cleaner.
+func NewVerifWindow(lifetime time.Duration) (*VerifWindow, error) {
+	w, err := newSlidingWindow(lifetime)
+	if err != nil {
+		return nil, err
+	}
+	return &VerifWindow{w: w}, nil
+}
+
+// Add adds a sample.
+func (v *VerifWindow) Add(x int64) { v.w.Add(x) }
+
+// Samples returns the current samples.
+func (v *VerifWindow) Samples() []int64 { return v.w.Samples() }
+
+// Stop stops the cleaner goroutine.
+func (v *VerifWindow) Stop() { v.w.stopping <- struct{}{} }
+
+// VerifRegisterWindow registers a sliding window with the given lifetime under key,
+// so that AddSample/Get use it instead of the hard-coded 60 s one.
+func (stats *Stats) VerifRegisterWindow(key string, lifetime time.Duration) error {
+	w, err := newSlidingWindow(lifetime)
+	if err != nil {
+		return err
+	}
+	stats.wlock.Lock()
+	stats.windows[key] = w
+	stats.wlock.Unlock()
+	return nil
+}
